@@ -6,6 +6,9 @@ D3 the type-flow check carries across context-only nodes and accepts only what t
 D4 keys a component publishes as created are written whatever the context already holds,
 D5 the abstract context state is updated completely and in the right order,
 D6 run time (get_processing_parameter_names) and inspection (`parameters` metadata) enumerate the same parameters.
+D7 the node configuration the run side hands to the node factory is a key-preserving image of the declared one (value flow
+   from the run entry through canonical-spec building and node instantiation),
+D8 building nodes for inspection does not add/remove entries of the caller-owned parameters mapping (inspect, then run the same object).
 """
 from __future__ import annotations
 
